@@ -167,6 +167,7 @@ type Config struct {
 }
 
 type Sim struct {
+	onces map[*sync.Once]*onceState
 	cfg   Config
 	Tape  *Tape
 	tasks []*Task
@@ -501,6 +502,53 @@ func LockAddr[T any](p *T) {
 		return
 	}
 	panic(fmt.Sprintf("simrt: cannot lock %T", p))
+}
+
+type onceState struct{ running, done bool }
+
+// OnceDo is what the rewriter emits for a statement `x.Do(f)` (p is &x). When x is a sync.Once (or a pointer to one)
+// the call is made cooperative: the task that runs f may yield inside it, and the other callers wait as simulated
+// tasks instead of blocking the baton on the mutex inside sync.Once. Anything else named Do is called as written.
+func OnceDo[T any, F any](p *T, f F) {
+	var o *sync.Once
+	switch v := any(p).(type) {
+	case *sync.Once:
+		o = v
+	case **sync.Once:
+		o = *v
+	}
+	ff, isFunc := any(f).(func())
+	if o == nil || !isFunc {
+		m := reflect.ValueOf(p).MethodByName("Do")
+		if !m.IsValid() {
+			m = reflect.ValueOf(p).Elem().MethodByName("Do")
+		}
+		m.Call([]reflect.Value{reflect.ValueOf(f)})
+		return
+	}
+	s := active.Load()
+	if s == nil || s.cur == nil {
+		o.Do(ff)
+		return
+	}
+	if s.onces == nil {
+		s.onces = map[*sync.Once]*onceState{}
+	}
+	st := s.onces[o]
+	if st == nil {
+		st = &onceState{}
+		s.onces[o] = st
+	}
+	switch {
+	case st.done:
+		o.Do(ff)
+	case st.running:
+		s.WaitUntil("once", func() bool { return st.done })
+	default:
+		st.running = true
+		defer func() { st.done = true }()
+		o.Do(ff)
+	}
 }
 
 func RLockAddr[T any](p *T) {
@@ -939,12 +987,60 @@ func (d *TLSDialer) Dial(network, addr string) (net.Conn, error) {
 	return d.DialContext(context.Background(), network, addr)
 }
 
+// TCPConn stands in for net.TCPConn in instrumented code (the rewriter turns every mention of net.TCPConn into this
+// type, and the simulated listener and dialers hand their connections out wrapped in it), so that code which looks
+// for the TCP connection under a net.Conn to set socket options finds one. Options the simulated connection knows
+// (linger) change its behaviour; the others are accepted and ignored.
+type TCPConn struct{ net.Conn }
+
+// SockOpter is what a simulated connection implements to receive socket options.
+type SockOpter interface {
+	SockOpt(name string, value int) error
+}
+
+func (c *TCPConn) opt(name string, v int) error {
+	if o, ok := c.Conn.(SockOpter); ok {
+		return o.SockOpt(name, v)
+	}
+	return nil
+}
+func b2i(b bool) int {
+	if b {
+		return 1
+	}
+	return 0
+}
+func (c *TCPConn) SetLinger(sec int) error    { return c.opt("linger", sec) }
+func (c *TCPConn) SetNoDelay(b bool) error    { return c.opt("nodelay", b2i(b)) }
+func (c *TCPConn) SetKeepAlive(b bool) error  { return c.opt("keepalive", b2i(b)) }
+func (c *TCPConn) SetReadBuffer(n int) error  { return c.opt("rcvbuf", n) }
+func (c *TCPConn) SetWriteBuffer(n int) error { return c.opt("sndbuf", n) }
+func (c *TCPConn) SetKeepAlivePeriod(d time.Duration) error {
+	return c.opt("keepalive-period", int(d/time.Second))
+}
+func (c *TCPConn) SetKeepAliveConfig(cfg net.KeepAliveConfig) error {
+	return c.opt("keepalive", b2i(cfg.Enable))
+}
+func (c *TCPConn) CloseRead() error {
+	if h, ok := c.Conn.(interface{ CloseRead() error }); ok {
+		return h.CloseRead()
+	}
+	return nil
+}
+func (c *TCPConn) CloseWrite() error {
+	if h, ok := c.Conn.(interface{ CloseWrite() error }); ok {
+		return h.CloseWrite()
+	}
+	return nil
+}
+
 // VarSnap keeps deep copies of the package-level maps of an instrumented package (taken the first time Restore is
 // called, after all init functions) and puts fresh copies back on every later call, so that whatever a run adds to a
 // process-wide table lazily is gone when the next run starts: every simulated run begins in a cold process.
 type VarSnap struct {
 	taken bool
 	vals  map[string]reflect.Value
+	lens  map[string]int
 }
 
 // Restore takes name -> pointer to the package-level variable; variables that are not maps are left alone.
@@ -952,19 +1048,49 @@ func (s *VarSnap) Restore(vars map[string]any) {
 	if !s.taken {
 		s.taken = true
 		s.vals = map[string]reflect.Value{}
+		s.lens = map[string]int{}
 		for name, p := range vars {
 			v := reflect.ValueOf(p).Elem()
 			if v.Kind() == reflect.Map && !v.IsNil() {
 				s.vals[name] = deepCopyValue(v)
+				s.lens[name] = deepLen(v)
 			}
 		}
 		return
 	}
 	for name, p := range vars {
 		if snap, ok := s.vals[name]; ok {
+			// (a table that still has the shape of the snapshot has not been filled in the meantime: left alone)
+			if cur := reflect.ValueOf(p).Elem(); !cur.IsNil() && deepLen(cur) == s.lens[name] {
+				continue
+			}
 			reflect.ValueOf(p).Elem().Set(deepCopyValue(snap))
 		}
 	}
+}
+
+// deepLen counts the entries of a map and of the maps and slices nested in it.
+func deepLen(v reflect.Value) int {
+	switch v.Kind() {
+	case reflect.Map:
+		n := v.Len()
+		if k := v.Type().Elem().Kind(); k == reflect.Map || k == reflect.Slice {
+			it := v.MapRange()
+			for it.Next() {
+				n += deepLen(it.Value())
+			}
+		}
+		return n
+	case reflect.Slice:
+		n := v.Len()
+		if k := v.Type().Elem().Kind(); k == reflect.Map || k == reflect.Slice {
+			for i := 0; i < v.Len(); i++ {
+				n += deepLen(v.Index(i))
+			}
+		}
+		return n
+	}
+	return 0
 }
 
 func deepCopyValue(v reflect.Value) reflect.Value {
